@@ -965,12 +965,12 @@ func stageExotic(sink *hx.Sink) {
 	}
 	base := func() *davx.Node {
 		return davx.Dir("a", davx.File("x"), "d", davx.Dir("f", davx.File("y"), "g", davx.Dir("h", davx.File("z"))),
-			"loop", davx.File(davx.LinkMark+"loop"), "dirlink", davx.File(davx.LinkMark+"d"), "dangling", davx.File(davx.LinkMark+"nowhere"),
+			"loop", davx.File(davx.LinkMark+"loop"), "dirlink", davx.File(davx.LinkMark+"d"), "dangling", davx.File(davx.LinkMark+"nowhere"), "devnull", davx.File(davx.LinkMark+"/dev/null"),
 			"withlink", davx.Dir("m", davx.File("m"), "l", davx.File(davx.LinkMark+"../d"), "z", davx.File("z")),
 			"s", deepTree)
 	}
 	methods := []string{"OPTIONS", "GET", "HEAD", "PUT", "DELETE", "MKCOL", "COPY", "MOVE", "PROPFIND"}
-	paths := []string{"/" + long, "/" + long2, "/d/" + long, "/a/" + long, "/" + long + "/x", "/loop", "/loop/x", "/dirlink", "/dirlink/f", "/dangling", "/dangling/x",
+	paths := []string{"/" + long, "/" + long2, "/d/" + long, "/a/" + long, "/" + long + "/x", "/loop", "/loop/x", "/devnull", "/devnull/x", "/dirlink", "/dirlink/f", "/dangling", "/dangling/x",
 		"/withlink", "/withlink/l", "/withlink/l/f", deep, deep + "/leaf", deep + "/" + ok250, "/s", "/d", "/a"}
 	dests := []string{"/" + long, "/d/" + long2, "/new", "/" + strings.Repeat("D", 200), "/loop", "/loop/x", "/dirlink/new", "/dangling", "/withlink/l/new", deep + "/copy", "/a", "/d"}
 	jobs := make(chan job, 16)
@@ -1084,10 +1084,108 @@ func stageTypes(sink *hx.Sink) {
 	runJobs(jobs, sink, []string{"root"})
 }
 
+// ---- rootspell: the served directory written in unclean ways in the configuration (C01, C17)
+
+func stageRootSpell(sink *hx.Sink) {
+	tree := davx.Dir("a", davx.File("x"), "d", davx.Dir("f", davx.File("y"), "g", davx.Dir("h", davx.File("z"))))
+	var reqs []davx.Req
+	for _, p := range []string{"/", "/a", "/d", "/d/", "/d/g", "/zz", "//d", "/d/../a"} {
+		for _, m := range []string{"OPTIONS", "GET", "HEAD", "DELETE"} {
+			reqs = append(reqs, davx.NewReq(m, p))
+		}
+		for _, dp := range []string{"0", "1", "infinity"} {
+			for _, pf := range []string{"none", "propname"} {
+				r := davx.NewReq("PROPFIND", p)
+				r.Depth, r.PfBody = dp, pf
+				reqs = append(reqs, r)
+			}
+		}
+		r := davx.NewReq("PUT", p)
+		r.Body = "w"
+		reqs = append(reqs, r, davx.NewReq("MKCOL", p+"n"))
+		for _, m := range []string{"COPY", "MOVE"} {
+			for _, dst := range []string{"/new", "/d/new", "/a", "/"} {
+				c := davx.NewReq(m, p)
+				c.Dest = dst
+				reqs = append(reqs, c)
+			}
+		}
+	}
+	var wg sync.WaitGroup
+	for i, how := range davx.RootSpellings {
+		wg.Add(1)
+		go func(i int, how string) {
+			defer wg.Done()
+			sb := davx.NewSandboxSpelled(workerDir(200+i), []string{"root"}, how)
+			for _, r := range reqs {
+				if err := sb.Reset(davx.Dir("root", tree.Clone())); err != nil {
+					fmt.Fprintln(os.Stderr, "dav: reset:", err)
+					os.Exit(2)
+				}
+				before := davx.Snapshot(sb.Dir)
+				d, o, after := sb.Do(r, before)
+				sink.Put(davx.Line(sb, before, r, d, o, after))
+			}
+			os.RemoveAll(filepath.Dir(sb.Dir))
+		}(i, how)
+	}
+	wg.Wait()
+}
+
+// ---- raceput: DELETE of the target while PUTs to it are being served (C17: leak bit only)
+
+func stageRacePut(sink *hx.Sink) {
+	n := 1500
+	if hx.Tier() == "thorough" {
+		n = 12000
+	}
+	tree := davx.Dir("root", davx.Dir("d", davx.Dir()))
+	sb := davx.NewSandbox(workerDir(300), []string{"root"})
+	if err := sb.Reset(tree); err != nil {
+		fmt.Fprintln(os.Stderr, "dav: reset:", err)
+		os.Exit(2)
+	}
+	before := davx.Snapshot(sb.Dir)
+	stop := make(chan struct{})
+	var wg sync.WaitGroup
+	for g := 0; g < 4; g++ {
+		wg.Add(1)
+		go func() {
+			defer wg.Done()
+			del := davx.NewSandbox(sb.Dir, sb.RootRel)
+			for {
+				select {
+				case <-stop:
+					return
+				default:
+				}
+				r := davx.NewReq("DELETE", "/d/f")
+				d, o, _ := del.DoNoSnapshot(r)
+				if o.Leak {
+					sink.Put(davx.Line(sb, before, r, d, o, before))
+				}
+			}
+		}()
+	}
+	for i := 0; i < n; i++ {
+		r := davx.NewReq("PUT", "/d/f")
+		r.Body = "racing"
+		d, o, _ := sb.DoNoSnapshot(r)
+		d.Stamp = 0
+		sink.Put(davx.Line(sb, before, r, d, o, before))
+		g := davx.NewReq("GET", "/d/f")
+		d2, o2, _ := sb.DoNoSnapshot(g)
+		sink.Put(davx.Line(sb, before, g, d2, o2, before))
+	}
+	close(stop)
+	wg.Wait()
+	os.RemoveAll(filepath.Dir(sb.Dir))
+}
+
 func main() {
 	out := flag.String("out", "", "output file")
 	replay := flag.String("replay", "", "file of case lines to re-run")
-	stage := flag.String("stage", "universe", "universe|history|paths|traversal|cond|putfault|putsteps|headers|exotic|types")
+	stage := flag.String("stage", "universe", "universe|history|paths|traversal|cond|putfault|putsteps|headers|exotic|types|rootspell|raceput")
 	flag.Parse()
 	scratch = os.Getenv("VERIF_SCRATCH")
 	if scratch == "" {
@@ -1135,11 +1233,8 @@ func main() {
 				_, o, after, st := sb.DoSteps(rr, chunks, fails, before)
 				sink.Put(stepsLine(sb, before, r, fails, o, after, st))
 			case "root":
-				var rootRel []string
-				for _, a := range items[0].Args() {
-					rootRel = append(rootRel, a.Str())
-				}
-				sb = davx.NewSandbox(workerDir(0), rootRel)
+				rootRel, spell := davx.ParseRoot(items[0])
+				sb = davx.NewSandboxSpelled(workerDir(0), rootRel, spell)
 				tree := davx.ParseNode(items[1].List[1])
 				sb.Reset(tree)
 				before := davx.Snapshot(sb.Dir)
@@ -1173,6 +1268,10 @@ func main() {
 		stageExotic(sink)
 	case "types":
 		stageTypes(sink)
+	case "rootspell":
+		stageRootSpell(sink)
+	case "raceput":
+		stageRacePut(sink)
 	default:
 		fmt.Fprintln(os.Stderr, "unknown stage")
 		os.Exit(2)
